@@ -282,7 +282,7 @@ Qed.
 Example C12_ex_fallback :
   calls Z (fun k => 10 * k) (fun k => if k =? 2 then Some 1 else None) (fun _ => None) [1; 2] = [10; 10] /\
   calls Z (fun k => 10 * k) (fun _ => None) (fun _ => None) [1; 2] = [10; 20] /\
-  (length state_writers_expected = 60)%nat.
+  (length state_writers_expected = 63)%nat.
 Proof. vm_compute. repeat split. Qed.
 (** the text theorems are not about an empty table: 19 paths, and the pinned skeletons are
     rejected by the same test (and accepted by the pinned model) *)
